@@ -2,15 +2,17 @@
 (* Behaviour export for RawStream (replayed into drv/rawstream.cpp, sections "raw" and "file").  The design freedom   *)
 (* of the model (early write-out, read-ahead) is fixed to "none": the expected observations do not depend on it.      *)
 (* `touched` remembers calls that change nothing in the model (peek, shift, receive without data, read at the end of  *)
-(* the file, refused calls) so that the export continues after them: the code may move internal state there.          *)
+(* the file, refused calls, discards) so that the export continues after them: the code may move internal state.      *)
 EXTENDS RawStream, Json
 CONSTANT TouchMem
 VARIABLES hist, touched
+\* calls that lead back to a state the model has seen before (the code must have come back as well)
+Revisit == {"discard", "drop"}
 GenInit == Init /\ hist = <<obs>> /\ touched = {}
-Key == <<obs'.a, obs'.arg, Len(urin), fs.pos>>
+Key == <<obs'.a, obs'.arg, obs'.exp, Len(urin), fs.pos>>
 GenNext == /\ Next
            /\ hist' = Append(hist, obs')
-           /\ touched' = IF uvars' = uvars /\ fvars' = fvars /\ Cardinality(touched \cup {Key}) <= TouchMem
+           /\ touched' = IF (obs'.a \in Revisit \/ (uvars' = uvars /\ fvars' = fvars)) /\ Cardinality(touched \cup {Key}) <= TouchMem
                           THEN touched \cup {Key} ELSE touched
 GenSpec == GenInit /\ [][GenNext]_<<vars, hist, touched>>
 RawSh(v, wc, wo, rc, ro, g) == [sec |-> "raw", via |-> v, wcap |-> wc, woff |-> wo, rcap |-> rc, roff |-> ro, grow |-> g]
